@@ -90,9 +90,9 @@ func r031(c *Ctx, rule string) {
 			okArms = false
 			continue
 		}
-		if deadline != nil && st.Chan == ssa.Value(deadline) {
+		if deadline != nil && stripConv(st.Chan) == ssa.Value(deadline) {
 			deadlineArm = i
-		} else if call, ok := st.Chan.(*ssa.Call); ok && call.Call.IsInvoke() && call.Call.Method.Name() == "Done" {
+		} else if call, ok := stripConv(st.Chan).(*ssa.Call); ok && call.Call.IsInvoke() && call.Call.Method.Name() == "Done" {
 			if cx, ok := call.Call.Value.(*ssa.Call); ok && calleeName(cx.Common()) == "(*net/http.Request).Context" {
 				doneArm = i
 			}
